@@ -101,6 +101,42 @@ example :
     let h2 := Hier.applyParented h1 20 1
     h2.par 1 = some 20 ∧ h2.ch 20 = [1] ∧ h2.ch 10 = [] := by decide
 
+/-- **chains, fan-out, moves between parents — any sequence.** A peer's hierarchy after a history is the fold of the
+link operations it carried out (`set_parent; add_child` each). Whatever the sequence, the hierarchy stays well formed,
+and a child named by some operation ends under the parent of the *last* operation naming it, listed there exactly
+once and under no other parent. -/
+theorem C05_any_sequence_wf (h : Hier.H) (ops : List (Nat × Nat)) (hw : Hier.WF h) :
+    Hier.WF (Hier.applyAll h ops) :=
+  Hier.applyAll_wf h ops hw
+
+theorem C05_any_sequence_last_wins (h : Hier.H) (ops : List (Nat × Nat)) (hw : Hier.WF h) (c p : Nat)
+    (hl : Hier.lastOp c ops none = some p) :
+    (Hier.applyAll h ops).par c = some p ∧ ((Hier.applyAll h ops).ch p).count c = 1 ∧
+    ∀ q, q ≠ p → c ∉ (Hier.applyAll h ops).ch q :=
+  Hier.applyAll_last h ops hw c p hl
+
+/-- **two peers, different orders.** Peers carry out the operations of different children in different orders (only
+the per-child order is common to them: `C10`, `Proofs/CompOrder`). If they started with the same links and the last
+operation naming each child is the same on both, they end with the same `Parent` for every child and the same
+`Children` membership — each child exactly once under its parent, nowhere else — on both. -/
+theorem C05_any_order_same_links (h1 h2 : Hier.H) (ops1 ops2 : List (Nat × Nat)) (hw1 : Hier.WF h1)
+    (hw2 : Hier.WF h2) (hp : ∀ c, h1.par c = h2.par c)
+    (hl : ∀ c, Hier.lastOp c ops1 none = Hier.lastOp c ops2 none) :
+    (∀ c, (Hier.applyAll h1 ops1).par c = (Hier.applyAll h2 ops2).par c) ∧
+    ∀ c q, ((Hier.applyAll h1 ops1).ch q).count c = ((Hier.applyAll h2 ops2).ch q).count c ∧
+      ((Hier.applyAll h1 ops1).ch q).count c = if (Hier.applyAll h1 ops1).par c = some q then 1 else 0 :=
+  Hier.applyAll_agree h1 h2 ops1 ops2 hw1 hw2 hp hl
+
+/-- non-vacuity: a chain (3 under 2 under 1), a fan-out (4, 5 under 1) and a move (3 to 1), carried out in two
+different orders by two peers — same links, different `Children` order -/
+example :
+    let a := Hier.applyAll Hier.empty [(1, 2), (2, 3), (1, 4), (1, 5), (1, 3)]
+    let b := Hier.applyAll Hier.empty [(1, 5), (2, 3), (1, 3), (1, 4), (1, 2)]
+    a.ch 1 = [2, 4, 5, 3] ∧ b.ch 1 = [5, 3, 4, 2] ∧ a.ch 2 = [] ∧ b.ch 2 = [] ∧
+    (∀ c ∈ [2, 3, 4, 5], a.par c = some 1 ∧ b.par c = some 1) ∧
+    (∀ c ∈ [1, 2, 3, 4, 5], Hier.lastOp c [(1, 2), (2, 3), (1, 4), (1, 5), (1, 3)] none =
+      Hier.lastOp c [(1, 5), (2, 3), (1, 3), (1, 4), (1, 2)] none) := by decide
+
 /-- (tie) hierarchies in the joining snapshot: parent pairs are listed after every entity, for pairs of tracked entities only,
 and the joiner drops a pair only when it does not know one of the two -/
 theorem C05_snapshot_links_tie :
